@@ -1,4 +1,5 @@
 #!/bin/bash
-# Runs the repository's pinned test suite with the guard OFF (there are no
-# hooks in /repo: instrumentation happens on a scratch copy at check time).
-cd /repo/grpcgcp && go test -vet=off -count=1 -timeout 25m ./... && cd /repo/spanner_prober && go test -vet=off -count=1 ./... 
+# The repository's pinned test suite with the guard OFF. There are no hooks in
+# /repo (instrumentation happens on a scratch copy at check time), so this is
+# simply the baseline command of /root/.vp/BASELINE.json.
+for m in $(cat /w/out/gomods.txt); do MF=$(cd /repo/$m && . /w/out/goenv.sh && gomodflag); (cd /repo/$m && go test $MF -json -vet=off -count=1 -timeout 25m ./...); done
